@@ -236,11 +236,31 @@ Qed.
    norm_o2 = sqrt((1+t)^2+d^2).  The code's deltaSin equals (1+t)/norm_o2 - t/norm_o1. *)
 Definition deltaSin_code (t d : R) : R :=
   let n41 := Rabs t in let n42 := Rabs (1 + t) in
-  let s1 := n41 / sqrt (t * t + d * d) in
-  let s2 := n42 / sqrt ((1 + t) * (1 + t) + d * d) in
-  if Rltb 1 n41 && Rltb n42 n41 then Rabs (s1 - s2)
-  else if Rltb 1 n42 && Rltb n41 n42 then Rabs (s2 - s1)
+  let no1 := sqrt (t * t + d * d) in
+  let no2 := sqrt ((1 + t) * (1 + t) + d * d) in
+  let s1 := n41 / no1 in
+  let s2 := n42 / no2 in
+  let beyond := d * d * (n41 + n42) / (no1 * no2 * (n41 * no2 + n42 * no1)) in
+  if Rltb 1 n41 && Rltb n42 n41 then beyond
+  else if Rltb 1 n42 && Rltb n41 n42 then beyond
   else Rabs (s1 + s2).
+
+(* a/n1 - b/n2 in cancellation-free form, when a - b = 1 or b - a = 1 resp. *)
+Lemma beyond_form (a b d n1 n2 : R) : 0 < d -> 0 < n1 -> 0 < n2 -> 0 <= a -> 0 <= b -> 0 < a + b ->
+  n1 * n1 = a * a + d * d -> n2 * n2 = b * b + d * d -> a - b = 1 ->
+  d * d * (a + b) / (n1 * n2 * (a * n2 + b * n1)) = a / n1 - b / n2.
+Proof.
+  intros Hd H1 H2 Ha Hb Hab E1 E2 Hdiff.
+  assert (Hden : 0 < a * n2 + b * n1).
+  { destruct (Rle_lt_or_eq_dec 0 a Ha) as [Hp|Hz].
+    - assert (0 < a * n2) by (apply Rmult_lt_0_compat; lra). assert (0 <= b * n1) by (apply Rmult_le_pos; lra). lra.
+    - assert (0 < b * n1) by (apply Rmult_lt_0_compat; lra). rewrite <- Hz. lra. }
+  assert (K : (a * n2 - b * n1) * (a * n2 + b * n1) = d * d * (a + b)).
+  { replace ((a * n2 - b * n1) * (a * n2 + b * n1)) with (a * a * (n2 * n2) - b * b * (n1 * n1)) by ring.
+    rewrite E1, E2. replace (a * a * (b * b + d * d) - b * b * (a * a + d * d)) with (d * d * ((a - b) * (a + b))) by ring.
+    rewrite Hdiff. ring. }
+  rewrite <- K. field. repeat split; lra.
+Qed.
 
 Lemma frac_mono (a b d : R) : 0 < d -> 0 <= b -> b <= a ->
   b / sqrt (b * b + d * d) <= a / sqrt (a * a + d * d).
@@ -275,6 +295,9 @@ Proof.
   pose proof (Rle_0_sqr t) as Ht2. pose proof (Rle_0_sqr (1 + t)) as Ht3. unfold Rsqr in Ht2, Ht3.
   assert (Hs1 : 0 < sqrt (t * t + d * d)) by (apply sqrt_lt_R0; lra).
   assert (Hs2 : 0 < sqrt ((1 + t) * (1 + t) + d * d)) by (apply sqrt_lt_R0; lra).
+  assert (En1 : sqrt (t * t + d * d) * sqrt (t * t + d * d) = t * t + d * d) by (apply sqrt_sqrt; lra).
+  assert (En2 : sqrt ((1 + t) * (1 + t) + d * d) * sqrt ((1 + t) * (1 + t) + d * d) = (1 + t) * (1 + t) + d * d)
+    by (apply sqrt_sqrt; lra).
   set (n1 := sqrt (t * t + d * d)) in *. set (n2 := sqrt ((1 + t) * (1 + t) + d * d)) in *.
   destruct (Rltb 1 (Rabs t)) eqn:E1; destruct (Rltb (Rabs (1 + t)) (Rabs t)) eqn:E2; simpl.
   - (* mask2: t < -1 *)
@@ -284,10 +307,10 @@ Proof.
       - rewrite (Rabs_pos_eq t) in E2 by lra. rewrite Rabs_pos_eq in E2 by lra. lra.
       - rewrite (Rabs_left t) in E1 by lra. lra. }
     rewrite (Rabs_left t) by lra. rewrite (Rabs_left (1 + t)) by lra.
-    pose proof (frac_mono (- t) (- (1 + t)) d Hd ltac:(lra) ltac:(lra)) as Hm.
-    replace (- (1 + t) * - (1 + t)) with ((1 + t) * (1 + t)) in Hm by ring.
-    replace (- t * - t) with (t * t) in Hm by ring. fold n1 n2 in Hm.
-    rewrite Rabs_pos_eq; [field; lra | lra].
+    rewrite (beyond_form (- t) (- (1 + t)) d n1 n2); try lra.
+    + field. lra.
+    + rewrite En1. ring.
+    + rewrite En2. ring.
   - (* 1 < |t| but |1+t| >= |t| : t > 1 ; then mask3 holds *)
     apply Rltb_true in E1. apply Rltb_false in E2.
     assert (Ht : 1 < t).
@@ -298,8 +321,9 @@ Proof.
     assert (E3 : Rltb 1 (1 + t) = true) by (apply Rltb_true; lra).
     assert (E4 : Rltb t (1 + t) = true) by (apply Rltb_true; lra).
     rewrite E3, E4. simpl.
-    pose proof (frac_mono (1 + t) t d Hd ltac:(lra) ltac:(lra)) as Hm. fold n1 n2 in Hm.
-    rewrite Rabs_pos_eq; [field; lra | lra].
+    replace (d * d * (t + (1 + t)) / (n1 * n2 * (t * n2 + (1 + t) * n1)))
+      with (d * d * ((1 + t) + t) / (n2 * n1 * ((1 + t) * n1 + t * n2))) by (f_equal; ring).
+    rewrite (beyond_form (1 + t) t d n2 n1); try lra.
   - (* |t| <= 1, |1+t| < |t| : -1 <= t < -1/2 ; not mask3 *)
     apply Rltb_false in E1. apply Rltb_true in E2.
     assert (Ht : -1 <= t < 0).
@@ -323,8 +347,9 @@ Proof.
     destruct (Rltb 1 (1 + t)) eqn:E3; destruct (Rltb (Rabs t) (1 + t)) eqn:E4; simpl.
     + (* mask3: 0 < t *)
       apply Rltb_true in E3. rewrite (Rabs_pos_eq t) by lra.
-      pose proof (frac_mono (1 + t) t d Hd ltac:(lra) ltac:(lra)) as Hm. fold n1 n2 in Hm.
-      rewrite Rabs_pos_eq; [field; lra | lra].
+      replace (d * d * (t + (1 + t)) / (n1 * n2 * (t * n2 + (1 + t) * n1)))
+        with (d * d * ((1 + t) + t) / (n2 * n1 * ((1 + t) * n1 + t * n2))) by (f_equal; ring).
+      rewrite (beyond_form (1 + t) t d n2 n1); try lra.
     + apply Rltb_true in E3. apply Rltb_false in E4. rewrite (Rabs_pos_eq t) in E4 by lra. lra.
     + apply Rltb_false in E3. rewrite (Rabs_left1 t) by lra.
       assert (0 <= - t / n1) by (apply Rmult_le_pos; [lra | left; apply Rinv_0_lt_compat; lra]).
